@@ -60,9 +60,9 @@ func parseTxOp(fs []string) *txop {
 // variants lists, per method, the body variants the generator knows ("valid" first). The same
 // table drives the builder (gen.go).
 var variants = map[string][]string{
-	"staking.Transfer":                {"valid", "valid", "below-min", "too-much", "to-self", "to-vault", "cbor"},
+	"staking.Transfer":                {"valid", "valid", "below-min", "too-much", "to-self", "to-vault", "to-next-vault", "cbor"},
 	"staking.Burn":                    {"valid", "too-much", "zero", "cbor"},
-	"staking.AddEscrow":               {"valid", "valid", "below-min", "too-much", "to-account", "cbor"},
+	"staking.AddEscrow":               {"valid", "valid", "below-min", "too-much", "to-account", "to-next-vault", "cbor"},
 	"staking.ReclaimEscrow":           {"valid", "too-many-shares", "no-delegation", "zero", "cbor"},
 	"staking.AmendCommissionSchedule": {"valid", "past-start", "too-many-steps", "rate-over-100", "empty", "cbor"},
 	"staking.Allow":                   {"valid", "valid", "to-self", "many", "negative-underflow", "zero", "cbor"},
@@ -91,7 +91,7 @@ var variants = map[string][]string{
 	"vault.CancelAction": {"valid", "wrong-nonce", "not-authorized", "unknown-vault", "cbor"},
 
 	"beacon.SetEpoch": {"next", "not-advancing", "far", "cbor"},
-	"beacon.VRFProve": {"valid", "wrong-epoch", "bad-proof", "foreign-proof", "not-node", "cbor"},
+	"beacon.VRFProve": {"valid", "wrong-epoch", "bad-proof", "foreign-proof", "not-node", "cbor", "off-curve", "bad-scalar", "short"},
 
 	"keymanager.UpdatePolicy":           {"valid", "not-owner", "not-km", "unknown-runtime", "stale-serial", "bad-signature", "cbor"},
 	"keymanager.PublishMasterSecret":    {"no-status", "not-km", "unknown-runtime", "cbor"},
@@ -190,6 +190,12 @@ func genHistory(r *hlib.Rng, w *world, blocks int) []string {
 			for n := 0; n < numValidators+numCompute; n++ {
 				add(txl("beacon.VRFProve", "valid", n, r))
 			}
+			// re-submissions by nodes that already have a proof stored for this epoch: the same
+			// proof again, and well-sized proofs that do not decode / do not verify
+			for k := 0; k < 3; k++ {
+				vs := []string{"valid", "bad-proof", "off-curve", "bad-scalar", "foreign-proof", "short"}
+				add(txl("beacon.VRFProve", vs[r.Intn(len(vs))], r.Intn(numValidators+numCompute), r))
+			}
 		}
 	}
 	// ---- setup (explicit ops; a= selects the runtime / entity / node / account)
@@ -239,6 +245,18 @@ func genHistory(r *hlib.Rng, w *world, blocks int) []string {
 			for nn := numValidators; nn < numValidators+numCompute; nn++ {
 				add(txl("registry.RegisterNode", "valid-renew", nn, r))
 			}
+		}
+		if r.Chance(1, 6) {
+			// an address is funded / delegated to before a vault is created there (the vault
+			// address is a function of creator and creator nonce): a = creator account
+			k := r.Intn(3)
+			if r.Chance(2, 3) {
+				add(txl("staking.Transfer", "to-next-vault", k, r))
+			}
+			if r.Chance(2, 3) {
+				add(txl("staking.AddEscrow", "to-next-vault", k, r))
+			}
+			add(txl("vault.Create", "valid", k, r))
 		}
 		for i := 0; i < n; i++ {
 			add(genTxOp(r, w, false).String())
